@@ -2,6 +2,7 @@ package c10
 
 import (
 	"bytes"
+	"context"
 	"fmt"
 	"hash"
 	"os"
@@ -9,6 +10,7 @@ import (
 	"strings"
 	"time"
 
+	dtls "github.com/pion/dtls/v3"
 	"github.com/pion/dtls/v3/internal/zzverif/lib/pbt"
 	"github.com/pion/dtls/v3/internal/zzverif/lib/ref"
 	"github.com/pion/dtls/v3/internal/zzverif/lib/scen"
@@ -27,6 +29,9 @@ type LiveCase struct {
 	Sizes  []int  `json:"sizes"`
 	Label  string `json:"label"`
 	ExpLen int    `json:"explen"`
+	// Updates (1.3): after the first exchange every side performs this many key updates (alternately with and
+	// without requesting the peer's), then the payloads are exchanged once more under the later generations
+	Updates int `json:"updates,omitempty"`
 }
 
 var pskSuite = map[uint16]bool{0xc0a4: true, 0xc0a8: true, 0xc0a9: true, 0x00a8: true, 0x00ae: true, 0xccab: true, 0xc037: true}
@@ -112,11 +117,63 @@ func runLive(c LiveCase, r *pbt.R) {
 		}
 		time.Sleep(3 * time.Second)
 		scen.Settle()
+		if is13 && c.Updates > 0 {
+			for u := 0; u < c.Updates; u++ {
+				for _, sd := range []*scen.Side{p.C, p.S} {
+					ctx, cancel := context.WithTimeout(context.Background(), time.Minute)
+					err := sd.Conn.UpdateKeys(ctx, dtls.KeyUpdateOptions{RequestPeerUpdate: u%2 == 1})
+					cancel()
+					if err != nil {
+						r.Failf("C10|harness|update-keys", "UpdateKeys %d on %s: %v", u, sd.Name, err)
+
+						return
+					}
+				}
+			}
+			var c2s2, s2c2 [][]byte
+			for i, n := range c.Sizes {
+				b := bytes.Repeat([]byte{byte(0x40 + i)}, n)
+				c2s2 = append(c2s2, append([]byte("C2S/2:"), b...))
+				s2c2 = append(s2c2, append([]byte("S2C/2:"), b...))
+			}
+			gotS2, gotC2, werr2 := p.Exchange(c2s2, s2c2)
+			if werr2 != nil || len(gotS2) != len(c2s2) || len(gotC2) != len(s2c2) {
+				r.Failf("C10|harness|exchange-after-update", "exchange after %d key updates failed: %v", c.Updates, werr2)
+
+				return
+			}
+			c2s, s2c = append(c2s, c2s2...), append(s2c, s2c2...)
+			time.Sleep(3 * time.Second)
+			scen.Settle()
+			r.Class("key-updates")
+		}
 		stC, _ := p.C.Conn.ConnectionState()
 		stS, _ := p.S.Conn.ConnectionState()
 		var dec *ref.Decoder
 		if is13 {
-			dec = scen.Decoder13(p, gens)
+			// the passive decoder holds the handshake and first application traffic secrets only; every later
+			// generation is its own RFC 8446 7.2 successor of those, never what the library says it installed
+			var base []scen.Gen13
+			for _, g := range gens {
+				if g.Epoch <= 3 {
+					base = append(base, g)
+				}
+			}
+			dec = scen.Decoder13(p, base)
+			if dec != nil {
+				if su, ok := ref.Suites13[c.Suite]; ok {
+					for _, g := range base {
+						if g.Epoch != 3 {
+							continue
+						}
+						sec := g.Secret
+						for e := uint16(4); e <= uint16(3+2*c.Updates+1); e++ { //nolint:gosec
+							sec = ref.NextTrafficSecret13(su, sec)
+							dec.AddGen13(e, sec)
+						}
+					}
+				}
+			}
 		} else {
 			dec = scen.Decoder12(p, env)
 		}
@@ -412,6 +469,9 @@ func genLive(t *rapid.T) LiveCase {
 	c.Sizes = rapid.SliceOfN(rapid.SampledFrom([]int{0, 1, 15, 16, 17, 100, 1000}), 1, 3).Draw(t, "sizes")
 	c.Label = rapid.SampledFrom([]string{"EXTRACTOR-dtls_srtp", "EXPORTER-verif", "x", strings.Repeat("label", 5)}).Draw(t, "label")
 	c.ExpLen = rapid.SampledFrom([]int{1, 16, 32, 60, 100}).Draw(t, "explen")
+	if c.Suite>>8 == 0x13 {
+		c.Updates = rapid.SampledFrom([]int{0, 1, 2, 3}).Draw(t, "updates")
+	}
 
 	return c
 }
@@ -420,7 +480,11 @@ func enumLive(_ string, yield func(LiveCase) bool) {
 	for _, su := range liveSuites {
 		for _, cid := range []int{0, 4} {
 			for _, skip := range []bool{false, true} {
-				if !yield(LiveCase{Suite: su, CIDC: cid, CIDS: cid, Pad: cid / 2, SkipHV: skip, Sizes: []int{5, 0, 300}, Label: "EXTRACTOR-dtls_srtp", ExpLen: 60}) {
+				lc := LiveCase{Suite: su, CIDC: cid, CIDS: cid, Pad: cid / 2, SkipHV: skip, Sizes: []int{5, 0, 300}, Label: "EXTRACTOR-dtls_srtp", ExpLen: 60}
+				if su>>8 == 0x13 && skip {
+					lc.Updates = 3
+				}
+				if !yield(lc) {
 					return
 				}
 			}
